@@ -271,7 +271,7 @@ func runCheck(p *Prog, prop, tier string, timeout, workers int, verbose bool) in
 			out.Undecided = append(out.Undecided, fmt.Sprintf("%s: %s", r.Fn, strings.Join(r.Unsupported, "; ")))
 		}
 	}
-	if len(vanished) > 0 {
+	if len(vanished) > 0 && os.Getenv("GOVC_WRITE_BASELINE") != "1" {
 		// A baseline obligation that is no longer generated means the VC changed shape
 		// (renamed clause, removed call site ...). Report it: silence would be vacuity.
 		o := &Obligation{Name: vanished[0], Kind: "vacuity", Src: fmt.Sprintf("%d baseline obligations are no longer generated: %s", len(vanished), strings.Join(firstN(vanished, 8), ", "))}
@@ -342,6 +342,13 @@ func runCheck(p *Prog, prop, tier string, timeout, workers int, verbose bool) in
 	os.MkdirAll(filepath.Join(outDir, "evidence"), 0o755)
 	data, _ := json.MarshalIndent(ev, "", " ")
 	os.WriteFile(filepath.Join(outDir, "evidence", prop+".json"), append(data, '\n'), 0o644)
+	if os.Getenv("GOVC_SLOW") != "" {
+		for _, o := range out.Obls {
+			if o.TimeS > 1.5 {
+				fmt.Fprintf(os.Stderr, "slow %.2fs %s %s %s\n", o.TimeS, o.Solver, o.Result, o.Name)
+			}
+		}
+	}
 	if verbose {
 		for _, r := range out.Results {
 			printResult(r, false)
